@@ -76,18 +76,40 @@ type world struct {
 	polLog  []need
 }
 
+var worldCount int
+
 func newWorld(run *evid.Run, sel bool, pol policy) *world {
 	w := &world{run: run, sel: sel, pol: pol, hmap: map[int]int{}}
 	w.recd = rec.New(ocimem.New())
+	// Every third world sits on a stack of wrappers that allow everything (0..3 of them, both kinds),
+	// and gets a sibling built on the same parent afterwards with a deny-all policy: neither may matter.
+	worldCount++
+	base := w.recd.Interface()
+	layers := 0
+	if worldCount%3 == 0 {
+		layers = 1 + (worldCount/3)%3
+		for i := 0; i < layers; i++ {
+			if i%2 == 0 {
+				base = ocifilter.AccessChecker(base, func(string, ocifilter.AccessKind) error { return nil })
+			} else {
+				base = ocifilter.Select(base, func(string) bool { return true })
+			}
+		}
+		run.Count("worlds_on_stacked_wrappers", 1)
+		defer func() {
+			ocifilter.Select(base, func(string) bool { return false })
+			ocifilter.AccessChecker(base, func(string, ocifilter.AccessKind) error { return errors.New("sibling view denies everything") })
+		}()
+	}
 	var reg ociregistry.Interface
 	if sel {
-		reg = ocifilter.Select(w.recd.Interface(), func(repo string) bool {
+		reg = ocifilter.Select(base, func(repo string) bool {
 			w.polLog = append(w.polLog, need{repo, -1})
 			// Select's allow function sees only the name: collapse the kinds
 			return w.pol(repo, ocifilter.AccessRead)
 		})
 	} else {
-		reg = ocifilter.AccessChecker(w.recd.Interface(), func(repo string, kind ocifilter.AccessKind) error {
+		reg = ocifilter.AccessChecker(base, func(repo string, kind ocifilter.AccessKind) error {
 			w.polLog = append(w.polLog, need{repo, kind})
 			if w.pol(repo, kind) {
 				return nil
